@@ -66,3 +66,163 @@ pub fn has_path(edges: &[(u64, u64)], from: u64, to: u64) -> bool {
         .collect();
     crate::has_path(&graph, from, to)
 }
+
+/// Drop-in stand-ins for the `std::sync` types behind the crate's process-wide state (actor id
+/// counter, ask tokens, dead-letter counter, wait-for graph lock).
+///
+/// Each operation first reports to an optional, process-wide hook and then performs the very same
+/// `std` operation. With no hook installed (the default) the types behave exactly like the `std`
+/// ones. A verification harness installs a hook that hands control to a thread scheduler, which
+/// makes every interleaving of these operations between OS threads reachable on purpose.
+pub mod sync {
+    use std::ops::Deref;
+    use std::sync::atomic::{AtomicPtr, Ordering};
+    use std::sync::{LockResult, MutexGuard, TryLockError};
+
+    /// What the calling thread is about to do.
+    #[derive(Clone, Copy, Debug, PartialEq, Eq)]
+    pub enum Point {
+        /// an atomic read, write or read-modify-write
+        Atomic,
+        /// an attempt to take a lock
+        Lock,
+        /// the lock was found taken; the caller will try again after the hook returns
+        LockBusy,
+    }
+
+    static HOOK: AtomicPtr<()> = AtomicPtr::new(std::ptr::null_mut());
+
+    /// Installs (or removes) the hook called before every operation of the types in this module.
+    pub fn set_hook(hook: Option<fn(Point)>) {
+        let raw = match hook {
+            Some(f) => f as *mut (),
+            None => std::ptr::null_mut(),
+        };
+        HOOK.store(raw, Ordering::SeqCst);
+    }
+
+    #[inline]
+    fn hook() -> Option<fn(Point)> {
+        let raw = HOOK.load(Ordering::Acquire);
+        if raw.is_null() {
+            None
+        } else {
+            // SAFETY: only `set_hook` stores here, and it stores a `fn(Point)`.
+            Some(unsafe { std::mem::transmute::<*mut (), fn(Point)>(raw) })
+        }
+    }
+
+    #[inline]
+    fn point(p: Point) {
+        if let Some(f) = hook() {
+            f(p);
+        }
+    }
+
+    /// `std::sync::atomic::AtomicU64` with a hook call before each operation.
+    #[derive(Debug, Default)]
+    pub struct AtomicU64(std::sync::atomic::AtomicU64);
+
+    impl AtomicU64 {
+        pub const fn new(v: u64) -> Self {
+            AtomicU64(std::sync::atomic::AtomicU64::new(v))
+        }
+        pub fn load(&self, order: Ordering) -> u64 {
+            point(Point::Atomic);
+            self.0.load(order)
+        }
+        pub fn store(&self, v: u64, order: Ordering) {
+            point(Point::Atomic);
+            self.0.store(v, order)
+        }
+        pub fn swap(&self, v: u64, order: Ordering) -> u64 {
+            point(Point::Atomic);
+            self.0.swap(v, order)
+        }
+        pub fn fetch_add(&self, v: u64, order: Ordering) -> u64 {
+            point(Point::Atomic);
+            self.0.fetch_add(v, order)
+        }
+        pub fn fetch_sub(&self, v: u64, order: Ordering) -> u64 {
+            point(Point::Atomic);
+            self.0.fetch_sub(v, order)
+        }
+        pub fn fetch_max(&self, v: u64, order: Ordering) -> u64 {
+            point(Point::Atomic);
+            self.0.fetch_max(v, order)
+        }
+        pub fn fetch_min(&self, v: u64, order: Ordering) -> u64 {
+            point(Point::Atomic);
+            self.0.fetch_min(v, order)
+        }
+        pub fn compare_exchange(
+            &self,
+            current: u64,
+            new: u64,
+            success: Ordering,
+            failure: Ordering,
+        ) -> Result<u64, u64> {
+            point(Point::Atomic);
+            self.0.compare_exchange(current, new, success, failure)
+        }
+        pub fn compare_exchange_weak(
+            &self,
+            current: u64,
+            new: u64,
+            success: Ordering,
+            failure: Ordering,
+        ) -> Result<u64, u64> {
+            point(Point::Atomic);
+            self.0.compare_exchange_weak(current, new, success, failure)
+        }
+        pub fn fetch_update<F>(
+            &self,
+            set_order: Ordering,
+            fetch_order: Ordering,
+            f: F,
+        ) -> Result<u64, u64>
+        where
+            F: FnMut(u64) -> Option<u64>,
+        {
+            point(Point::Atomic);
+            self.0.fetch_update(set_order, fetch_order, f)
+        }
+    }
+
+    impl Deref for AtomicU64 {
+        type Target = std::sync::atomic::AtomicU64;
+        fn deref(&self) -> &Self::Target {
+            &self.0
+        }
+    }
+
+    /// `std::sync::Mutex` with a hook call before each attempt to lock.
+    #[derive(Debug, Default)]
+    pub struct Mutex<T>(std::sync::Mutex<T>);
+
+    impl<T> Mutex<T> {
+        pub const fn new(t: T) -> Self {
+            Mutex(std::sync::Mutex::new(t))
+        }
+        pub fn lock(&self) -> LockResult<MutexGuard<'_, T>> {
+            loop {
+                point(Point::Lock);
+                match self.0.try_lock() {
+                    Ok(guard) => return Ok(guard),
+                    Err(TryLockError::Poisoned(p)) => return Err(p),
+                    Err(TryLockError::WouldBlock) => match hook() {
+                        Some(f) => f(Point::LockBusy),
+                        None => return self.0.lock(),
+                    },
+                }
+            }
+        }
+    }
+
+    impl<T> Deref for Mutex<T> {
+        type Target = std::sync::Mutex<T>;
+        fn deref(&self) -> &Self::Target {
+            &self.0
+        }
+    }
+}
